@@ -127,8 +127,10 @@ def hygiene():
     return bad
 
 
-def build_coq(clean=False):
-    """Regenerate tables from the live SDK, then make (full .vo build)."""
+def build_coq(clean=False, theory=None):
+    """Regenerate tables from the live SDK, then make (full .vo build).  With `theory` (a property file)
+    only that file's dependency closure and the extraction are built, so that the verdict on one
+    property depends on its own theorems and models and not on another property's proof files."""
     p = run([HARNESS, "tables", os.path.join(COQ, "Generated", "Tables.v")], cwd=ROOT, env=GOENV, timeout=300)
     if p.returncode != 0:
         raise ProofBroken("tables", "table dumper failed:\n" + p.stdout[-2000:])
@@ -144,7 +146,8 @@ def build_coq(clean=False):
     if not os.path.exists(mk) or os.path.getmtime(mk) < os.path.getmtime(cp):
         run(["coq_makefile", "-f", "_CoqProject", "-o", "Makefile"], cwd=COQ, check=True)
     t0 = time.time()
-    p = run(["make", "-j16"], cwd=COQ, timeout=3000)
+    targets = [theory[:-2] + ".vo", "Extract/Extract.vo"] if theory else []
+    p = run(["make", "-j16"] + targets, cwd=COQ, timeout=3000)
     os.makedirs(os.path.join(BUILD, "logs"), exist_ok=True)
     with open(os.path.join(BUILD, "logs", "coq_make.log"), "a") as f:
         f.write("==== make at %s (%.1fs) rc=%d\n%s\n" % (time.ctime(), time.time() - t0, p.returncode, p.stdout))
@@ -175,10 +178,10 @@ def build_driver():
             raise ProofBroken("driver-build", p.stdout[-3000:])
 
 
-def build_all(clean=False):
+def build_all(clean=False, theory=None):
     with Lock("build"):
         build_harness()
-        build_coq(clean=clean)
+        build_coq(clean=clean, theory=theory)
         build_driver()
 
 
@@ -387,7 +390,7 @@ def check(prop, tier):
     proof_ok = True
     proof_fail = None
     try:
-        build_all(clean=(tier == "thorough" and os.environ.get("VERIF_NO_CLEAN") != "1"))
+        build_all(clean=(tier == "thorough" and os.environ.get("VERIF_NO_CLEAN") != "1"), theory=spec["theory"])
         files = coq_closure(spec["theory"])
         nq, names = count_qed(files)
         nrep, axioms = print_assumptions(spec["theory"])
